@@ -12,11 +12,15 @@ EXT = False
 SALT = 2
 
 
-def judge(ik, mk):
+def judge(ik, mk, check_trait=False):
     probs = []
-    if ik.get('rast') != 'ok' or ik.get('ra') != mk['spec']:
+    ra = ik.get('ra', '')
+    trait = None
+    if ';trait=' in ra:
+        ra, trait = ra.rsplit(';trait=', 1)
+    if ik.get('rast') != 'ok' or ra != mk['spec']:
         probs.append(('impl≠spec', {'accessors': 'random-access', 'status': ik.get('rast'),
-                                    'diff': W.first_diff(ik.get('ra', ''), mk['spec']),
+                                    'diff': W.first_diff(ra, mk['spec']),
                                     'case': {'what': 'decode', 'access': 'random', 'status': ik.get('rast')}}))
     exp_cur = W.strip_sizes(mk['spec'])
     cur = ik.get('cur', '')
@@ -25,6 +29,16 @@ def judge(ik, mk):
         probs.append(('impl≠spec', {'accessors': 'cursor', 'status': ik.get('curst'),
                                     'diff': W.first_diff(cur, exp_cur + ';cursor=' + size),
                                     'case': {'what': 'decode', 'access': 'cursor', 'status': ik.get('curst')}}))
+    if check_trait and trait is not None:
+        size = mk['spec'].rsplit('size=', 1)[-1]
+        if trait != size:
+            probs.append(('impl≠spec', {'what': 'trait-level size_bytes(counts..., total_data) differs from the image size',
+                                        'trait': trait, 'image_size': size, 'counts': mk.get('counts'),
+                                        'tdata': mk.get('tdata'),
+                                        'case': {'what': 'trait-size', 'status': 'ok'}}))
+        elif mk.get('traitsize') != size:
+            probs.append(('impl≠model (implementation agrees with the specification)',
+                          {'what': 'Gen.messageSize', 'model': mk.get('traitsize'), 'impl': trait}))
     if ik.get('unchanged') != '1':
         probs.append(('impl≠spec', {'what': 'a getter modified the buffer', 'case': {'what': 'decode-writes'}}))
     if not probs and mk['spec'] != mk['model']:
@@ -45,7 +59,7 @@ def run_decode(chk, module, theorems, ext, salt, n_quick=32, n_thorough=200):
         if run.prepare():
             run.gen_cases()
             run.build_drivers()
-            W.decode_check(chk, run, judge)
+            W.decode_check(chk, run, (lambda ik, mk: judge(ik, mk, check_trait=not ext)))
     finally:
         run.cleanup()
     W.finish_cov(chk, run, 'one evaluation = one reference image (printed by the Lean specification from a random '
